@@ -139,8 +139,94 @@ func execLabelRaw(op string, args []string) string {
 		}
 		l.Labels = parseNames(args[1])
 		return "ok " + hx(l.ToBytes())
+	case "labseq":
+		var l *rfc1035label.Labels
+		if args[0] == "new" {
+			l = rfc1035label.NewLabels()
+		} else {
+			var err error
+			l, err = rfc1035label.FromBytes(unhx(args[0]))
+			if err != nil {
+				return "err"
+			}
+		}
+		var outs []string
+		for _, op := range args[1:] {
+			f := strings.Split(op, ":")
+			switch f[0] {
+			case "t":
+				outs = append(outs, "ok "+hx(l.ToBytes()))
+			case "s":
+				if i := atoi(f[1]); i < len(l.Labels) {
+					l.Labels[i] = parseNames(f[2])[0] // in-place element write
+				}
+			case "a":
+				l.Labels = append(l.Labels, parseNames(f[1])[0])
+			case "r":
+				l.Labels = parseNames(f[1])
+			case "d":
+				if i := atoi(f[1]); i < len(l.Labels) {
+					l.Labels = append(l.Labels[:i], l.Labels[i+1:]...)
+				}
+			}
+		}
+		return "ok " + strings.Join(outs, " ")
 	}
 	return "bad-op"
+}
+
+// genLabSeq: a history of edits and ToBytes calls on one label set, including
+// restore-after-edit and in-place writes after an encoding.
+func genLabSeq(r *Rng) (string, []string) {
+	start := "new"
+	var names []string
+	if r.Chance(3, 4) {
+		b, _ := genParsableWire(r)
+		start = hx(b)
+		if l, err := rfc1035label.FromBytes(b); err == nil {
+			names = append(names, l.Labels...)
+		}
+	}
+	orig := append([]string(nil), names...)
+	ops := []string{}
+	n := r.Range(2, 8)
+	for k := 0; k < n; k++ {
+		switch r.Intn(8) {
+		case 0, 1, 2:
+			ops = append(ops, "t")
+		case 3:
+			if len(names) > 0 {
+				i := r.Intn(len(names))
+				nm := genValidNames(r)
+				if len(nm) > 0 && nm[0] != "" {
+					names[i] = nm[0]
+					ops = append(ops, fmt.Sprintf("s:%d:%s", i, showNames(nm[:1])))
+				}
+			}
+		case 4:
+			nm := genValidNames(r)
+			if len(nm) > 0 && nm[0] != "" {
+				names = append(names, nm[0])
+				ops = append(ops, "a:"+showNames(nm[:1]))
+			}
+		case 5:
+			// restore the names the set was parsed with
+			names = append([]string(nil), orig...)
+			ops = append(ops, "r:"+showNames(orig))
+		case 6:
+			if len(names) > 0 {
+				i := r.Intn(len(names))
+				names = append(names[:i], names[i+1:]...)
+				ops = append(ops, fmt.Sprintf("d:%d", i))
+			}
+		default:
+			nm := genValidNames(r)
+			names = append([]string(nil), nm...)
+			ops = append(ops, "r:"+showNames(nm))
+		}
+	}
+	ops = append(ops, "t")
+	return "labseq " + start + " " + strings.Join(ops, " "), []string{"seq", fmt.Sprintf("seqlen=%d", len(ops))}
 }
 
 // ---------------------------------------------------------------------------
@@ -616,6 +702,9 @@ func genEdit(r *Rng, b []byte) ([]string, string) {
 }
 
 func genLabelLine(r *Rng) (string, []string) {
+	if r.Chance(1, 8) {
+		return genLabSeq(r)
+	}
 	switch r.Intn(20) {
 	case 0, 1, 2, 3, 4, 5, 6:
 		b, tag := genLabelWire(r)
